@@ -48,10 +48,15 @@ struct MiriOut {
 
 fn miri_pass(threads: u32, k: usize) -> Result<MiriOut, String> {
     let ws = root().join(LOOM_WS);
-    let (code, out, err) = sh(Command::new("cargo")
+    // wall cap: an interpreter run that does not end (a spin loop that never gets its turn) is a machinery
+    // failure, never a verdict and never a hang
+    let (code, out, err) = sh(Command::new("timeout")
         .current_dir(&ws)
         .env("MIRIFLAGS", "-Zmiri-ignore-leaks")
-        .args(["+nightly", "miri", "run", "--offline", "-q", "-p", "miri_pass", "--", &threads.to_string(), &k.to_string()]));
+        .args(["-k", "10", "600", "cargo", "+nightly", "miri", "run", "--offline", "-q", "-p", "miri_pass", "--", &threads.to_string(), &k.to_string()]));
+    if code == 124 || code == 137 {
+        return Err(format!("cargo miri run (threads={threads}, creations={k}) did not end within 600 s and was killed"));
+    }
     let tail: String = err.lines().rev().take(40).collect::<Vec<_>>().into_iter().rev().collect::<Vec<_>>().join("\n");
     let mut mo = MiriOut { ub: None, outcome: None, solo: None, results_ok: None, raw_tail: tail.clone() };
     if let Some(l) = err.lines().find(|l| l.contains("Undefined Behavior")) {
